@@ -299,7 +299,7 @@ func c09Run(r *core.Run) {
 		depth = 4
 		r.SetBudget(10 * time.Minute)
 	}
-	r.Rule = "engine B: BFS over histories of Reg(route,api) and Headers(i,set) on a fresh Flame (state = shortest history, successor = replay + one op; key = registrations in order with their current constraint sets); after every transition the full probe set (3 methods x 11 paths x 6 header sets) is served and compared with the documented priority restricted to eligible registrations; a state reached again by another history must answer the probe set identically; non-trivial = probe served while at least one registration carries constraints"
+	r.Rule = fmt.Sprintf("engine B: BFS over histories of Reg(route,api) and Headers(i,set) on a fresh Flame (state = shortest history, successor = replay + one op; key = registrations in order with their current constraint sets); after every transition the full probe set (%d methods x %d paths x %d request header sets, each served three times; for histories of one and three operations also interleaved with the operations) is served", len(c09Methods), len(c09Paths), len(c09ReqHdrs)) + " and compared with the documented priority restricted to eligible registrations; a state reached again by another history must answer the probe set identically; non-trivial = probe served while at least one registration carries constraints"
 	r.Bounds["depth"] = depth
 	r.Bounds["ops"] = len(ops)
 	r.Bounds["max_registrations"] = c09MaxRegs
